@@ -20,6 +20,8 @@ finally:
     subprocess.run(["git", "-C", "/repo", "checkout", "--", "."], check=True)
     # generated Gallina files follow the source: bring them back to the clean tree
     import glob
+    # evidence files written while the patch was applied describe the patched tree: restore the committed ones
+    subprocess.run(["git", "-C", root, "checkout", "--", "evidence"], capture_output=True)
     for t in sorted(glob.glob(os.path.join(root, "tools", "translate_*.py"))):
         if not t.endswith("translate_mutation.py"):
             subprocess.run(["python3", t], capture_output=True)
